@@ -297,8 +297,8 @@ def f32Zero (neg : Bool) : UInt32 := if neg then 0x80000000 else 0
 /-- `float_roundtrip`, `deserialize_f32`: `self.single_precision = true` makes `f64_from_parts` /
     `f64_long_from_parts` compute `lexical::parse_…_float::<f32>(…) as f64` (the correctly rounded f32:
     C07), an infinite result being `NumberOutOfRange`; integers that `parse_number` returns as
-    `U64`/`I64` are cast directly by the visitor, and `-(significand as f64)` (a `-0` or a negative
-    integer below `i64::MIN` whose digits fit `u64`) is an `f64` that the visitor casts (`as f32`).
+    `U64`/`I64` are cast directly by the visitor, and a `-0` or a negative integer below `i64::MIN` whose
+    digits fit `u64` is `-(significand as f32) as f64` (rounded once, straight to f32; the visitor's `as f32` is exact).
     `none` = `NumberOutOfRange`. -/
 def f32Roundtrip (p : Model.Num.Parts) : Option UInt32 :=
   match Model.Num.intClass p with
@@ -307,7 +307,8 @@ def f32Roundtrip (p : Model.Num.Parts) : Option UInt32 :=
   | some _ => none
   | none =>
     if p.frac.isNone && p.exp.isNone && Model.Num.natOfDigits p.int < 2 ^ 64 then
-      some (f64ToF32 (Spec.Ieee.F64.neg (Spec.Ieee.F64.ofU64 (Model.Num.natOfDigits p.int))))
+      -- since be03444 (`fix:`): `-(significand as f32) as f64` when `single_precision` is set — one rounding
+      some (Spec.Ieee.F32.neg (Spec.Ieee.F32.ofU64 (Model.Num.natOfDigits p.int)))
     else
       let allZero := (p.int ++ p.frac.getD []).all (· == 0x30)
       let overflow := match p.exp with
